@@ -86,6 +86,7 @@ thread_local! {
     static IN_TASK_POLL: Cell<bool> = const { Cell::new(false) };
     static STEP_HOOK: RefCell<Option<Box<dyn FnMut()>>> = const { RefCell::new(None) };
     static PROGRESS: Cell<u64> = const { Cell::new(0) };
+    static IDLE_WAITERS: RefCell<Vec<(Waker, std::rc::Rc<Cell<bool>>)>> = const { RefCell::new(Vec::new()) };
     static HANG_CLASSIFIER: RefCell<Option<Box<dyn Fn() -> String>>> = const { RefCell::new(None) };
 }
 
@@ -532,7 +533,21 @@ impl Future for Executor {
         }
         let id = match this.pick() {
             Some(id) => id,
-            None => return Poll::Pending, // tokio parks: the paused clock jumps to the next timer
+            None => {
+                // Nothing is runnable. Tasks waiting for exactly this moment (`until_idle`)
+                // are released now; otherwise tokio parks and the paused clock jumps to
+                // the next timer.
+                let waiters = IDLE_WAITERS.with(|w| std::mem::take(&mut *w.borrow_mut()));
+                if waiters.is_empty() {
+                    return Poll::Pending;
+                }
+                for (w, released) in waiters {
+                    released.set(true);
+                    w.wake();
+                }
+                cx.waker().wake_by_ref();
+                return Poll::Pending;
+            }
         };
         let steps = with_state(|s| {
             s.steps += 1;
@@ -713,6 +728,7 @@ where
     STEP_HOOK.with(|h| *h.borrow_mut() = None);
     HANG_CLASSIFIER.with(|h| *h.borrow_mut() = None);
     PROGRESS.with(|p| p.set(0));
+    IDLE_WAITERS.with(|w| w.borrow_mut().clear());
     crate::net::reset_write_seq();
     CUR_GROUP.with(|g| g.set(0));
     PANIC_IS_VIOLATION.with(|p| p.set(false));
@@ -879,6 +895,25 @@ pub async fn in_group<T>(group: u32, fut: impl Future<Output = T>) -> T {
         let r = fut.as_mut().poll(cx);
         set_group(prev);
         r
+    })
+    .await
+}
+
+/// Resolves at a moment when no other task of the run is runnable (all of them are
+/// blocked on I/O, channels or timers). This is the simulator's quiescence point.
+pub async fn until_idle() {
+    let released = std::rc::Rc::new(Cell::new(false));
+    let mut registered = false;
+    std::future::poll_fn(move |cx| {
+        if released.get() {
+            return Poll::Ready(());
+        }
+        // (re-)register: the task may be polled for other reasons (e.g. a stale I/O waker)
+        if !registered {
+            registered = true;
+            IDLE_WAITERS.with(|w| w.borrow_mut().push((cx.waker().clone(), released.clone())));
+        }
+        Poll::Pending
     })
     .await
 }
